@@ -65,10 +65,10 @@ func runFromPB(d *datapb.Data) (v px.Value, outcome, detail string) {
 }
 
 // runProtoConsumer plays one top-level event into a real protoConsumer
-func runProtoConsumer(e *Ev) (d *datapb.Data, outcome, detail string) {
+func runProtoConsumer(e *Ev, hint int) (d *datapb.Data, outcome, detail string) {
 	outcome, detail = guarded(func() {
 		pc := pcproto.NewProtoConsumer()
-		play(e, pc)
+		playH(e, pc, hint)
 		d = pc.Value()
 	})
 	return
@@ -96,10 +96,10 @@ func wire(d *datapb.Data) (r *datapb.Data, outcome, detail string) {
 }
 
 // runCollector plays events into a real types.BasicCollector and returns the exact image of its value
-func runCollector(e *Ev) (v *Ev, outcome, detail string) {
+func runCollector(e *Ev, hint int) (v *Ev, outcome, detail string) {
 	outcome, detail = guarded(func() {
 		c := types.NewCollector()
-		play(e, c)
+		playH(e, c, hint)
 		v = fromPx(c.Value())
 	})
 	return
